@@ -127,6 +127,9 @@ def universes_c06():
         E("r1", "A", 10000, 10), E("r2", "A", 10000, 20), E("p1", "A", 30000, 10, [["d", "a"]]), E("p2", "A", 30000, 20, [["d", "a"]]),
         E("d1", "A", 5, 30, [["e", "n1"], ["e", "r2"]]), E("x1", "A", 20000, 10),
         E("fg", "A", 1, 10, mutate=_forge_content), E("fs", "B", 1, 10, mutate=_forge_sig),
+        # authentic but malformed where no validator looks (a deletion with a reference that is not an id, an expiration tag
+        # without a value): the relay may refuse them, but a refusal must leave no trace - they fail late, inside the write
+        E("dx", "A", 5, 31, [["e", "n1"], ["e", "nothex"]], dub=True), E("xb", "A", 1, 12, [["expiration"]], dub=True),
     ]
     # neighbours in the replaceable address space: same author and kind under other d values (older and newer), the same kind
     # of another author, the next kind - an acknowledged event may only give way to a newer version of its own address
@@ -285,7 +288,7 @@ def universes_c04():
 
 PALETTE_OF = {}
 
-SYMTABS = {"dunicode": {"uml": "\u00e4", "umlx": "\u00e4x"},
+SYMTABS = {"ack": {"nothex": "this-is-not-an-event-id"}, "dunicode": {"uml": "\u00e4", "umlx": "\u00e4x"},
            "delnone": {"acoord": "30000:%s:x" % C.pubkey("A")},
            "verbatim": {"sp": " a ", "up": "ABCDEF", "num": "007", "nfc": "\u00e9", "nfd": "e\u0301"},
            "gcdigits": {"v999": "999", "vbig": "17000000150", "vz14": "01700000014", "vi14": 1700000014, "vneg": "0abc"}}
